@@ -228,3 +228,46 @@ def m_instrument(I, c, args, fr):
 @model('Span::none', 'Span::current', 'Span::clone')
 def m_span(I, c, args, fr):
     return Adt('Span', None, 0, [])
+
+
+# ---------------------------------------------------------------------------- std atomics (single-threaded: plain cells)
+class AtomicCell:
+    def __init__(self, v): self.v = v
+    def __repr__(self): return '<atomic %r>' % (self.v,)
+
+@model('Ordering::Relaxed')
+def m_dummy_ordering(I, c, args, fr):
+    return UNIT
+
+@model('Atomic::new', 'AtomicBool::new', 'AtomicUsize::new', 'AtomicU64::new', 'AtomicU32::new', 'AtomicIsize::new')
+def m_atomic_new(I, c, args, fr):
+    return AtomicCell(args[0])
+
+@model('Atomic::load', 'AtomicBool::load', 'AtomicUsize::load', 'AtomicU64::load', 'AtomicU32::load')
+def m_atomic_load(I, c, args, fr):
+    return deref(args[0]).v
+
+@model('Atomic::store', 'AtomicBool::store', 'AtomicUsize::store', 'AtomicU64::store', 'AtomicU32::store')
+def m_atomic_store(I, c, args, fr):
+    deref(args[0]).v = args[1]
+    return UNIT
+
+@model('Atomic::swap', 'AtomicBool::swap', 'AtomicUsize::swap')
+def m_atomic_swap(I, c, args, fr):
+    a = deref(args[0]); old = a.v; a.v = args[1]
+    return old
+
+@model('Atomic::fetch_add', 'AtomicUsize::fetch_add', 'AtomicU64::fetch_add')
+def m_atomic_fetch_add(I, c, args, fr):
+    a = deref(args[0]); old = a.v; a.v = (old + args[1]) & ((1 << 64) - 1)
+    return old
+
+@model('Atomic::fetch_or', 'AtomicBool::fetch_or')
+def m_atomic_fetch_or(I, c, args, fr):
+    a = deref(args[0]); old = a.v; a.v = old or args[1]
+    return old
+
+@model('Atomic::fetch_and', 'AtomicBool::fetch_and')
+def m_atomic_fetch_and(I, c, args, fr):
+    a = deref(args[0]); old = a.v; a.v = old and args[1]
+    return old
